@@ -19,6 +19,8 @@ THEOREMS = [
     "Wild.EhFrame.fde_kept_iff",
     "Wild.EhFrame.fde_kept_list",
     "Wild.EhFrame.cie_pointer_ok",
+    "Wild.EhFrame.goSections_eq_concat",
+    "Wild.EhFrame.writeObjSections_eq",
 ]
 LEVEL = "proof"
 TECHNIQUE = ("Lean 4 theorems over an executable model of write_eh_frame_relocations / the layout-side frame count / sort_eh_frame_hdr_entries + "
@@ -460,7 +462,7 @@ def build_cxx_program(r, d):
 
 def run(ctx):
     r = ctx.rng
-    n_free = 20 if ctx.quick else 600
+    n_free = 24 if ctx.quick else 600
     n_cxx = 3 if ctx.quick else 60
     reqs, impl = [], []
     for i in range(n_free):
@@ -537,6 +539,23 @@ def run(ctx):
                     ctx.violation(f"ld-count:{obs[:100]}", f"same retained functions but wild's table has {hdr['count']} entries, GNU ld's {lh['count']}", replay)
             else:
                 ctx.count("oracle-ld", "different-kept-set")
+                # GNU ld 2.40 stops collecting FDE-referenced sections of an object that has a second (COMDAT) .eh_frame section and keeps the
+                # whole group of a grouped .eh_frame; ld.lld collects them like wild does: second opinion on the count
+                rc3, _, e3 = lu.link("lld", ["--gc-sections", "--eh-frame-hdr", "-o", out + ".lld"] + objs, cwd=d)
+                if rc3 == 0:
+                    le = Elf(out + ".lld")
+                    lh = le.eh_frame_hdr()
+                    f3 = {y.name for y in le.symtab() if y.type == 2 and y.shndx != 0 and y.size}
+                    if lh and lh.get("entries") is not None and f1 == f3:
+                        ctx.count("oracle-lld", "same-count" if lh["count"] == hdr["count"] else "different-count")
+                        if lh["count"] != hdr["count"]:
+                            ctx.cov["impl_oracle_failures"] += 1
+                            keep = os.path.join(ctx.replay_dir(), f"c10-{i}")
+                            shutil.copytree(d, keep, dirs_exist_ok=True)
+                            replay["dir"] = keep
+                            ctx.violation(f"lld-count:{obs[:100]}", f"same retained functions but wild's table has {hdr['count']} entries, ld.lld's {lh['count']}", replay)
+                    else:
+                        ctx.count("oracle-lld", "different-kept-set")
         rcn, _ = run_rc(out)
         ctx.count("native", "exit0" if rcn == 0 else f"rc{rcn}")
         shutil.rmtree(d, ignore_errors=True)
